@@ -12,9 +12,12 @@ CONSTANTS
   Threads = {%s}
   NDicts = %d
   UseLock = %s
+  PublishEarly = %s
+  MayFail = %s
 INVARIANT UseSeesComplete
 INVARIANT AtMostOneCreate
 INVARIANT MutualExclusion
+INVARIANT PublishedIsComplete
 """
 
 REF = "select a, b as c from t where x = 1 order by a; insert into t values (1, 'x')"
@@ -169,17 +172,23 @@ def run(ctx):
     ndicts = len(extract.keyword_dicts())
     sched.NDICTS = ndicts
     # ---- M: schedules, design level ----------------------------------------
-    for n, lock in ((2, True), (3, True), (2, False)):
+    for n, lock, early, fail in ((2, True, False, False), (3, True, False, False), (2, True, False, True), (2, False, False, False),
+                                 (2, True, True, True)):
         ths = ', '.join('t%d' % i for i in range(1, n + 1))
-        r = tlc.run(ctx.workdir, 'LexerInit', INIT_CFG % (ths, 3 if n == 3 else ndicts, 'TRUE' if lock else 'FALSE'),
-                    workers=8, label='LexerInit_%d_%s' % (n, lock), allow_violation=not lock, timeout=600)
-        ctx.add_tlc(r, 'LexerInit %d threads UseLock=%s' % (n, lock))
+        mutant = (not lock) or early
+        r = tlc.run(ctx.workdir, 'LexerInit', INIT_CFG % (ths, 3 if (n == 3 or fail) else ndicts, 'TRUE' if lock else 'FALSE',
+                                                         'TRUE' if early else 'FALSE', 'TRUE' if fail else 'FALSE'),
+                    workers=8, label='LexerInit_%d_%s_%s_%s' % (n, lock, early, fail), allow_violation=mutant, timeout=600)
+        ctx.add_tlc(r, 'LexerInit %d threads UseLock=%s PublishEarly=%s MayFail=%s' % (n, lock, early, fail))
         if not lock and not r.violated:
             raise MachineryError('vacuity guard: the lock-free skeleton does not violate UseSeesComplete')
-        if lock:
-            for a in ('Create', 'AddK', 'Use'):
+        if early and not r.violated:
+            raise MachineryError('vacuity guard: publishing the singleton before its initialisation does not violate PublishedIsComplete')
+        if not mutant:
+            for a in ('Create', 'AddK', 'Use', 'Publish') + (('InitFail', 'Retry') if fail else ()):
                 if r.coverage.get(a, 0) == 0:
                     raise MachineryError('LexerInit action %s never taken' % a)
+    ctx.notes.append('vacuity guard ok: PublishEarly=TRUE with a failing initialisation violates the invariants (the defect repaired in /repo)')
     ctx.notes.append('vacuity guard ok: UseLock=FALSE violates the invariants')
     # ---- C->S: real threads under controlled schedules ------------------------
     seq = [(str(tt), v) for tt, v in __import__('sqlparse').lexer.tokenize(sched.TEXT)]
@@ -353,7 +362,8 @@ def run(ctx):
     return ctx.finish(
         rule='schedules: every single pre-emption (both orders) at each abstract state change of the 2-thread first-use run, sampled pairs of '
              'pre-emptions, 3-thread runs; each recorded as a trace of projected singleton states and validated by TLC (TraceLexerInit.tla); histories: '
-             'all operation sequences of ApiHistory.tla up to the bound + simulated longer ones, each replayed with a reference battery compared to the pristine digest; '
+             'all operation sequences of ApiHistory.tla up to the bound + simulated longer ones (operations include calls drawn from a pool of generated SqlGen programs with '
+             'comments), each replayed and followed by reference calls in random order, every answer compared with the answer the same call gives as the FIRST call of a fresh process; '
              'non-trivial = distinct schedule with a pre-emption or distinct history')
 
 
